@@ -218,6 +218,8 @@ def r33_5(ctx, facts):
                 continue
             n += 1
             cd = control_dependence_no_errors(b)
+            from .. import cfg as _cfg
+            domx = _cfg.Dom(b)
             excluded = set()
             for a, succ, k in transitive_control_deps(b, bi, cd=cd):
                 if not k or k[0] != "call":
@@ -229,7 +231,12 @@ def r33_5(ctx, facts):
                     truth = not truth
                 nm = (c.path or "").split("::")[-1]
                 if (nm in ("contains", "eq") and not truth) or (nm == "ne" and truth):
-                    excluded |= _const_strs(facts, b, c)
+                    # the exclusion must hold on *every* path to the `r#` block: the test dominates it and the block is
+                    # reachable from the test only through the excluding edge (`false && test` bypasses the test)
+                    from .common import only_via_edge
+                    edge = {0} if ((nm != "ne") != neg) else {None}
+                    if domx.dominates(a, bi) and only_via_edge(b, a, edge, bi):
+                        excluded |= _const_strs(facts, b, c)
             rest = sorted((NON_RAW & kw) - excluded)
             ctx.check(not rest, "R33.5", "%s|raw-prefix-excludes-non-raw-keywords" % fn_key(b, facts),
                       "the `r#` prefix is applied only after %s were excluded" % sorted(NON_RAW),
